@@ -2,16 +2,5 @@
 # Build the harness once (warms the Go build cache) from files on disk only.
 set -e
 cd "$(dirname "$0")"
-export GOFLAGS=-mod=mod GOPROXY=off
-unset GOSUMDB GOTOOLCHAIN 2>/dev/null || true
-WORK=${VERIF_WORK:-$(pwd)/.work}
-mkdir -p "$WORK/bin" "$WORK/fs" evidence
-cp /repo/go.sum engine/go.sum
-./tools/gencopies.sh
-(cd engine && go build -o "$WORK/bin/vmc" ./cmd/vmc)
-(cd /repo && go build -o "$WORK/bin/" ./cmd/...)
-(cd engine && go build -o "$WORK/bin/vinstr" ./cmd/vinstr)
-"$WORK/bin/vinstr" /repo "$WORK/instr"
-(cd engine && go build -tags instr -overlay "$WORK/instr/overlay.json" -o "$WORK/bin/vmc-instr" ./cmd/vmc)
-(cd engine && go build -race -tags instr -overlay "$WORK/instr/overlay.json" -o "$WORK/bin/vmc-race" ./cmd/vmc)
-echo "setup ok: $($WORK/bin/vmc-instr list | tr '\n' ' ')"
+./check build-all
+echo "setup ok: $(${VERIF_WORK:-$(pwd)/.work}/bin/vmc-instr list | tr '\n' ' ')"
